@@ -81,7 +81,7 @@ func configChild(args []string) error {
 	if err != nil {
 		return err
 	}
-	ctx, cancel := context.WithTimeout(context.Background(), 600*time.Millisecond)
+	ctx, cancel := context.WithTimeout(context.Background(), 1500*time.Millisecond)
 	defer cancel()
 	// every optional component is switched on (the REST distributor and the bastion connection, both pointed at an address nobody listens on):
 	// the configuration has to be usable by all of them
